@@ -1339,7 +1339,9 @@ impl Trailer {
             });
         }
         if value.is_empty() {
-            return Ok((None, None));
+            // the tag is present with an empty value: keep that visible (an all-absent
+            // struct would serialise to an empty JSON object, which publishing removes)
+            return Ok((Some(String::new()), None));
         }
         let time = Some(value[0..4].to_string());
         if value.len() == 4 {
